@@ -42,7 +42,7 @@ try:
             if fn.endswith((".toml", ".rs", ".sh")):
                 p = os.path.join(root, fn)
                 s = open(p).read()
-                s2 = re.sub(r"/tmp/(wt/C\d\d|mut2/wtC\d\d|mut3/wtC\d\d|mut4/wtC\d\d|mut5/wtC\d\d)", wt, s)
+                s2 = re.sub(r"/tmp/(wt/C\d\d|mut2/wtC\d\d|mut3/wtC\d\d|mut4/wtC\d\d|mut5/wtC\d\d|mut6/wtC\d\d)", wt, s)
                 if s2 != s:
                     open(p, "w").write(s2)
     cmd = demo_cmd(demo)
